@@ -166,6 +166,7 @@ struct Adm
   bool hasParam = false;
   double parMax = 0; // <=0 or TEST: unbounded
   int hasRange = 1;
+  int declMaxNDim = 0; // getMaxNDim() of the complete object (0 or huge: no limit)
 };
 // structures which the library accepts in R^ndim (Euclidean): asked from the library itself
 static const std::vector<Adm>& admitted(int ndim)
@@ -179,17 +180,20 @@ static const std::vector<Adm>& admitted(int ndim)
     {
       if (!ECov::existsValue(v)) continue;
       const ECov& e = ECov::fromValue(v);
-      ACovFunc* f = nullptr;
+      // accepted = the user-facing constructor builds the structure in this dimension without an error
+      // (CovAniso is what Model::addCovFromParam and the CovAniso::create* functions go through) and it is a
+      // Euclidean covariance (sphere-only / spectral-only ones are outside the statement)
+      std::unique_ptr<CovAniso> ca;
       try
       {
         CovContext ctxt(1, ndim);
-        f = CovFactory::createCovFunc(e, ctxt);
+        ca.reset(new CovAniso(e, ctxt));
       }
-      catch (const LibExit&) { f = nullptr; }
-      catch (const std::exception&) { f = nullptr; }
+      catch (const LibExit&) { ca.reset(); }
+      catch (const std::exception&) { ca.reset(); }
+      if (!ca) continue;
+      const ACovFunc* f = ca->getCova();
       if (f == nullptr) continue;
-      // accepted = the library builds it in this dimension (ACovFunc::isConsistent makes the constructor throw
-      // otherwise) and it is a Euclidean covariance (sphere-only / spectral-only ones are outside the statement)
       bool ok = f->hasCovOnRn() && f->getCompatibleSpaceR();
       if (ok)
       {
@@ -200,9 +204,9 @@ static const std::vector<Adm>& admitted(int ndim)
         a.hasParam = f->hasParam();
         a.parMax = f->getParMax();
         a.hasRange = f->hasRange();
+        a.declMaxNDim = (int)std::min<unsigned int>(f->getMaxNDim(), 1000u);
         cache[ndim].push_back(a);
       }
-      delete f;
     }
   }
   return cache[ndim];
@@ -294,6 +298,7 @@ struct SInfo
   Eigen::MatrixXd sill;
   LD poly[3] = {0, 0, 0};                 // a + b h^2 + c h^4 (intrinsic structures)
   LD polyMag = 0;                         // magnitude of the values the polynomial was measured from
+  bool beyondDecl = false;                // accepted by the constructors although ndim > getMaxNDim()
   std::string variant;                    // regime of the evaluation (see setVariant), part of the failure key
   std::array<double, 3> scaleLib{{1, 1, 1}}; // scales as reported by the library (geometry / regime only, never the oracle)
 };
@@ -345,6 +350,7 @@ static std::string dimTag(int ndim) { return fmt("%dD", ndim); }
 static std::string skey(const char* what, const SInfo& s, int ndim)
 {
   std::string k = std::string(what) + ":" + s.key + ":" + dimTag(ndim);
+  if (s.beyondDecl) k += ":undeclared-dim";
   if (s.bigParam) k += ":bigparam";
   k += s.variant;
   return k;
@@ -378,6 +384,7 @@ static bool buildModel(const ModelCase& c, Ctx& ctx, Built& B, int onlyStruct = 
     s.minOrder = a->minOrder;
     s.hasParam = a->hasParam;
     s.hasRange = a->hasRange;
+    s.beyondDecl = (a->declMaxNDim > 0 && ndim > a->declMaxNDim);
     LD dummy;
     if (!rhoPub(s.type, 0.5L, 1., dummy))
     {
@@ -568,7 +575,7 @@ static void commonLabels(const ModelCase& c, const Built& B, Ctx& ctx)
   ctx.label(fmt("ndim:%d", c.ndim));
   ctx.label(fmt("nvar:%d", c.nvar));
   ctx.label(fmt("nstruct:%d", (int)B.s.size()));
-  for (auto& s : B.s) ctx.label("struct:" + s.key + ":" + dimTag(c.ndim));
+  for (auto& s : B.s) ctx.label("struct:" + s.key + ":" + dimTag(c.ndim) + (s.beyondDecl ? ":undeclared-dim" : ""));
   bool aniso = false;
   for (size_t k = 0; k < c.st.size(); k++)
     if (c.st[k].how != 2 && c.ndim > 1 && (c.st[k].ratio[1] != 1 || (c.ndim > 2 && c.st[k].ratio[2] != 1))) aniso = true;
